@@ -72,6 +72,7 @@ func run(r *vk.Run) {
 	m.multiSubscriberPhase()
 	lap("multi-subscriber")
 	m.traitServerPhase()
+	m.maskOptionOrder()
 	lap("trait-servers")
 
 	q := r.Quick()
